@@ -31,7 +31,7 @@ CLAIMED["C11"] = dict(
          "checked natively. Genetic-map distance/interpolation clauses are covered by the bounded native ring.",
     note=TRUST_COMMON + "exp/log laws are trusted instances; scipy interp1d behaviour is outside the contracts (ring only).",
 )
-SOURCE_COMMITS += ["ee6306b2", "0c304bf0"]
+SOURCE_COMMITS += ["ee6306b2", "0c304bf0", "bec7efd2", "ea4b9347", "27a5b242", "edfc47a7", "026496e9", "40b2a60c", "17c431ae", "8014ccf5", "e63286ed"]
 CLAIMED["C03"] = dict(
     level="proof",
     technique="deductive, proxy execution: the real matrix-class methods run on opaque symbolic arrays (uninterpreted numpy operators, symbolic shapes); per-operation uniformity/frame/WF obligations discharged by congruence (z3); induction over histories by the class invariant",
